@@ -98,6 +98,12 @@ CHECKS = {
    text="Generated tables and route strings; the oracle is an independent exact/prefix matcher plus per-service invocation counters and per-layer tags. Exploration of an unbounded table/string space.",
    note="Trusted: refmodel::routes (written from the statement). Patterns limited to the kinds the statement names; ':param' patterns not generated.",
    design="§4 C16"),
+ "C17": dict(
+   engine="proptest (+simnet)",
+   technique="property-based testing: random service definitions through the code generators with the output parsed by syn and compared with the route formula (differential client vs server vs router prefix); generated typed calls, planned handler results, undecodable payloads and hostile responses against a family of services compiled from the current anemo-build by the harness build script",
+   text="Generated definitions are checked at token level (client route literal == server match arm == '/'+SERVICE_NAME+'/'+route); behaviour is checked on a compiled family covering empty/dotted packages, prefix route names, both codecs and raw-bytes handlers, in-process and over the simulated network. Exploration.",
+   note="Trusted: syn for parsing the generators' output, bincode/serde_json to decide whether generated garbage happens to decode. Random definitions are not compiled.",
+   design="§4 C17"),
  "C18": dict(
    engine="proptest",
    technique="property-based testing: model-based operation histories (arrive/poll/release/cancel) with hand-polled futures, per-peer running-set model as oracle",
